@@ -535,6 +535,16 @@ Definition has_divisor_deg (p : Z) (P : poly) (k : nat) : bool :=
   existsb (fun D => match pmod p P D with [] => true | _ => false end) (monics p k).
 Definition brute_irreducible (p : Z) (P : poly) : bool :=
   (1 <=? deg P) && negb (existsb (has_divisor_deg p P) (seq 1 (length P - 2))).
+(* the verified checker: degree >= 1 and no monic divisor of degree 1 .. deg/2 *)
+Definition irreducible_b (p : Z) (P : poly) : bool :=
+  (1 <=? deg P) && forallb (fun k => negb (has_divisor_deg p P k)) (seq 1 (Z.to_nat (deg P / 2))).
+(* A^j modulo F by repeated multiplication (the definition the order checker is proved against), j >= 1 *)
+Fixpoint npow (p : Z) (A F : poly) (j : nat) : poly :=
+  match j with
+  | O => pone
+  | S O => A
+  | S j' => pmod p (pmul p (npow p A F j') A) F
+  end.
 (* multiplicative order of A modulo F by repeated multiplication: least k in [1, bound] with A^k = 1, else 0 *)
 Fixpoint brute_order_loop (p : Z) (fuel : nat) (A F cur : poly) (k : Z) : Z :=
   match fuel with
